@@ -1295,6 +1295,69 @@ func rulePoolOver(c *Ctx, b *Body, fns []*ssa.Function, lab string) {
 		}
 		return nil, false
 	}
+	// a map or slice taken from a pool still holds what its last user left in it: it is emptied
+	// before anything else is done with it (whatever that user did or failed to do before the Put)
+	for _, fn := range fns {
+		n := 0
+		allInstrs(fn, func(i ssa.Instruction) {
+			ta, ok := i.(*ssa.TypeAssert)
+			if !ok {
+				return
+			}
+			call, ok := ta.X.(*ssa.Call)
+			if !ok || !isPoolCall(&call.Call, "Get") {
+				return
+			}
+			var kind string
+			switch ta.AssertedType.Underlying().(type) {
+			case *types.Map:
+				kind = "map"
+			case *types.Slice:
+				kind = "slice"
+			default:
+				return
+			}
+			n++
+			key := fmt.Sprintf("%s: recycled %s #%d is emptied before it is used", fname(fn), kind, n)
+			var obj ssa.Value = ta
+			if ta.CommaOk {
+				for _, ex := range extractOf(ta, 0) {
+					obj = ex
+				}
+			}
+			if why := emptiedFirst(obj, kind); why == "" {
+				l.add("R-POOL", lab, key, b.posOf(ta), Discharged, "every use lies behind the loop that deletes all its members (or is the reslice to length 0)", true)
+			} else {
+				l.add("R-POOL", lab, key, b.posOf(ta), Violated, "a "+kind+" taken from a pool is used as it comes ("+why+"): whatever its last user left in it — a call that failed before its own clean-up included — becomes part of this call's data", true)
+			}
+		})
+	}
+	// what goes into a pool is an object of its own: the address of a field or element of another
+	// object stays reachable through that object — which is still in use, or sits in a pool
+	// itself — so two takers end up sharing it
+	for _, fn := range fns {
+		n := 0
+		allInstrs(fn, func(i ssa.Instruction) {
+			ci, ok := i.(ssa.CallInstruction)
+			if !ok {
+				return
+			}
+			rv, isRel := isRelease(ci.Common())
+			if !isRel {
+				return
+			}
+			n++
+			key := fmt.Sprintf("%s: release #%d hands the pool an object of its own, not a part of another one", fname(fn), n)
+			switch x := unwrapConv(rv).(type) {
+			case *ssa.FieldAddr:
+				l.add("R-POOL", lab, key, b.posOf(i), Violated, "the address of field "+fieldOfAddr(x).Field+" of "+roleOf(x.X)+" is put into a pool: the enclosing object keeps using it (or is pooled too), so the next taker shares it with that object's next user", true)
+			case *ssa.IndexAddr:
+				l.add("R-POOL", lab, key, b.posOf(i), Violated, "the address of an element is put into a pool: the slice or array it belongs to still refers to it", true)
+			default:
+				l.add("R-POOL", lab, key, b.posOf(i), Discharged, "released value is "+roleOf(rv), true)
+			}
+		})
+	}
 	for _, fn := range fns {
 		var gets []*ssa.Call
 		allInstrs(fn, func(i ssa.Instruction) {
@@ -1699,6 +1762,77 @@ func (a *effAn) handedOutReadOnly(fn *ssa.Function) string {
 	}
 	if sites == 0 {
 		return "nothing calls the function"
+	}
+	return ""
+}
+
+// emptiedFirst: every use of the recycled map m lies behind a loop that ranges over m deleting
+// each key (the loop's own instructions aside); for a slice, every use is the reslice [:0].
+// Returns "" when that holds, else the first use that stands against it.
+func emptiedFirst(m ssa.Value, kind string) string {
+	refs := m.Referrers()
+	if refs == nil {
+		return ""
+	}
+	if kind == "slice" {
+		for _, r := range *refs {
+			switch x := r.(type) {
+			case *ssa.DebugRef:
+			case *ssa.Slice:
+				if k, ok := intConst(x.High); !ok || k != 0 {
+					return "resliced to something other than length 0"
+				}
+			default:
+				return fmt.Sprintf("used by %T before being cut to length 0", r)
+			}
+		}
+		return ""
+	}
+	// the clearing loop
+	var header *ssa.BasicBlock
+	loopInstr := map[ssa.Instruction]bool{}
+	for _, r := range *refs {
+		rg, ok := r.(*ssa.Range)
+		if !ok {
+			continue
+		}
+		for _, r2 := range *rg.Referrers() {
+			nx, ok := r2.(*ssa.Next)
+			if !ok {
+				continue
+			}
+			// delete(m, key-of-this-next) somewhere in the loop
+			for _, r3 := range *refs {
+				del, ok := r3.(*ssa.Call)
+				if !ok {
+					continue
+				}
+				bi, isB := del.Call.Value.(*ssa.Builtin)
+				if !isB || bi.Name() != "delete" || len(del.Call.Args) != 2 || del.Call.Args[0] != m {
+					continue
+				}
+				if ex, ok := del.Call.Args[1].(*ssa.Extract); ok && ex.Tuple == ssa.Value(nx) && ex.Index == 1 {
+					header = nx.Block()
+					loopInstr[rg] = true
+					loopInstr[del] = true
+				}
+			}
+		}
+	}
+	if header == nil {
+		return "no loop deletes its members"
+	}
+	body := naturalLoop(header)
+	for _, r := range *refs {
+		if loopInstr[r] {
+			continue
+		}
+		if _, isDbg := r.(*ssa.DebugRef); isDbg {
+			continue
+		}
+		if body[r.Block()] || !header.Dominates(r.Block()) {
+			return fmt.Sprintf("used by %T before (or besides) the loop that empties it", r)
+		}
 	}
 	return ""
 }
